@@ -43,16 +43,67 @@ def build(spec, rng):
     raise ValueError(t)
 
 
+class _Boom:
+    def __init__(self, exc):
+        self.exc = exc
+
+    def __reduce__(self):
+        raise self.exc
+
+
+def disturb(rng):
+    """A call of joblib.hash that is unrelated to the values under test and may legitimately
+    fail: the digests of the OTHER calls must not depend on it (hash is a pure function)."""
+    import threading, pickle
+    k = rng.randrange(7)
+    try:
+        if k == 0:
+            joblib.hash([1, "x", threading.Lock()])                 # TypeError half-way through the dump
+        elif k == 1:
+            joblib.hash({"a": [1, 2, (i for i in ())]})
+        elif k == 2:
+            joblib.hash(("t", _Boom(RuntimeError("boom"))))
+        elif k == 3:
+            joblib.hash([b"y" * 100, _Boom(pickle.PicklingError("no"))])
+        elif k == 4:
+            joblib.hash({(1, "a"), (1, 2), frozenset({1}), frozenset({2})})   # not totally ordered
+        elif k == 5:
+            joblib.hash({float("nan"), 1.0, 2.5})
+        else:
+            joblib.hash([{("q", 1), ("q", "r")}, _Boom(KeyboardInterrupt())], hash_name="sha1")
+    except BaseException:  # noqa
+        pass
+
+
 def main():
     specs = json.load(open(sys.argv[1])); seed = int(sys.argv[2])
-    out = []
-    for i, sp in enumerate(specs):
-        rng = random.Random(seed * 100003 + i)
+    out = [None] * len(specs)
+    order = list(range(len(specs)))
+    hist = random.Random(seed * 7919 + 1)
+    quiet = seed == 1                       # node with history seed 1: plain order, no unrelated calls (the baseline)
+    if not quiet:
+        hist.shuffle(order)
+    def evaluate(i, salt):
+        rng = random.Random(seed * 100003 + i + salt)
         try:
-            v = build(sp, rng)
-            out.append([joblib.hash(v), joblib.hash(v, hash_name="sha1")])
+            v = build(specs[i], rng)
+            return [joblib.hash(v), joblib.hash(v, hash_name="sha1")]
         except BaseException as e:  # noqa
-            out.append(["EXC", "%s: %s" % (type(e).__name__, str(e)[:80])])
+            return ["EXC", "%s: %s" % (type(e).__name__, str(e)[:80])]
+    for i in order:
+        if not quiet and hist.random() < 0.3:
+            disturb(hist)
+        out[i] = evaluate(i, 0)
+    if not quiet:
+        # hashing the same value AGAIN later in the same interpreter
+        again = [i for i in order if hist.random() < 0.3]
+        hist.shuffle(again)
+        for i in again:
+            if hist.random() < 0.3:
+                disturb(hist)
+            r = evaluate(i, 50021)
+            if r != out[i] and out[i][0] not in ("EXC", "AGAIN"):
+                out[i] = ["AGAIN", "%s then %s" % (out[i], r)]
     print("RESULT " + json.dumps(out))
 
 
